@@ -196,6 +196,7 @@ pub fn main(spec_path: &str) {
     let mut tab_stop: u8 = 8;
     let mut indent_size: u8 = 2;
     let mut prompt_limit: usize = 100;
+    let mut show_all = false;
     let mut max_hist = 100usize;
     let mut printer = false;
     let mut pause = false;
@@ -249,6 +250,7 @@ pub fn main(spec_path: &str) {
             "tab_stop" => tab_stop = t[1].parse().unwrap(),
             "indent_size" => indent_size = t[1].parse().unwrap(),
             "prompt_limit" => prompt_limit = t[1].parse().unwrap(),
+            "show_all" => show_all = t[1] == "1",
             "bind" => binds.push((parse_keys(t[1]), parse_cmd(&t[2..]))),
             // an SQLite history at this path: `history` lines are entered by an earlier session (the database is then
             // closed and reopened), `history2` lines by the session the reads run in
@@ -270,6 +272,7 @@ pub fn main(spec_path: &str) {
         .tab_stop(tab_stop)
         .indent_size(indent_size)
         .completion_prompt_limit(prompt_limit)
+        .completion_show_all_if_ambiguous(show_all)
         .edit_mode(mode)
         .completion_type(completion)
         .keyseq_timeout(timeout)
